@@ -348,3 +348,49 @@ func spawnSites(fb *FuncBody) []ast.Node {
 	})
 	return out
 }
+
+// constIs reports whether e is a constant expression (literal or named constant) whose value prints as want
+// (strings are given with their quotes, e.g. `"*"`; numbers and booleans plainly).
+func constIs(info *types.Info, e ast.Expr, want string) bool {
+	if tv, ok := info.Types[e]; ok && tv.Value != nil {
+		return tv.Value.ExactString() == want
+	}
+	return false
+}
+
+// constText returns the exact text of a constant expression ("" when e is not constant).
+func constText(info *types.Info, e ast.Expr) string {
+	if tv, ok := info.Types[e]; ok && tv.Value != nil {
+		return tv.Value.ExactString()
+	}
+	return ""
+}
+
+// groupOf returns fb followed by the declared functions of the same package it calls (transitively, up to depth),
+// i.e. the helpers an extract-method refactoring would create. Used by structural rules that look for a construct
+// "in the function or in a helper it delegates to".
+func (p *Prog) groupOf(fb *FuncBody, depth int) []*FuncBody {
+	seen := map[*FuncBody]bool{fb: true}
+	out := []*FuncBody{fb}
+	frontier := []*FuncBody{fb}
+	for d := 0; d < depth; d++ {
+		var next []*FuncBody
+		for _, f := range frontier {
+			for _, call := range callsIn(f, true) {
+				fn, ok := callee(f.Info(), call).(*types.Func)
+				if !ok {
+					continue
+				}
+				t := p.DeclOf(fn)
+				if t == nil || t.Pkg != fb.Pkg || seen[t] {
+					continue
+				}
+				seen[t] = true
+				out = append(out, t)
+				next = append(next, t)
+			}
+		}
+		frontier = next
+	}
+	return out
+}
